@@ -578,7 +578,9 @@ class Spectrum:
         else:
             raise ValueError('Unknown method ', interp_method)
 
-        if preserve_power:
+        if preserve_power and np.sum(bins) != 0:
+            # (bins that sum to zero - e.g. an all-zero spectrum - have no power
+            # to rescale)
             norm_factor = self.integrate(np.min(wave), np.max(wave), method=interp_method)/np.sum(bins)
             bins *= norm_factor
 
